@@ -433,7 +433,7 @@ def run_cell(h, cell, tier, seed, budget_s):
         groups = {}
         for v, ctx, rec in er.violations:
             try:
-                sig = h.signature(v.label, to_float(evaluate(ctx.inputs, v.model)), cell)
+                sig = _sig(h, v.label, to_float(evaluate(ctx.inputs, v.model)), cell, v.detail)
             except BaseException:  # noqa
                 sig = v.label
             groups.setdefault((v.label, sig), []).append((v, ctx))
@@ -480,6 +480,14 @@ def run_cell(h, cell, tier, seed, budget_s):
     res["functions"] = mon.functions()
     res["wall_s"] = round(time.time() - t0, 2)
     return res
+
+
+def _sig(h, label, inp, cell, detail):
+    import inspect
+
+    if len(inspect.signature(h.signature).parameters) >= 4:
+        return h.signature(label, inp, cell, detail or {})
+    return h.signature(label, inp, cell)
 
 
 def _margin_model(ctx, v):
@@ -530,7 +538,7 @@ def _replay_violation(h, cell, v, ctx):
         if hit:
             rec["reproduced"] = True
             rec["failure"] = _js(hit[0][1])
-            rec["signature"] = h.signature(v.label, to_float(inp_exact), cell)
+            rec["signature"] = _sig(h, v.label, to_float(inp_exact), cell, hit[0][1])
             return rec
         rec["why"] = "real stack does not violate %s on these inputs (other failures: %s)" % (v.label, [f[0] for f in fails])
         last = rec
